@@ -46,9 +46,9 @@ Definition admission_source_expected : list N :=
 Lemma gen_admission_source : map strip_ws admission_source = [admission_source_expected].
 Proof. vm_compute. reflexivity. Qed.
 
-(* zone=="" || IsBestEffort || EffectiveError != nil || Is(cause, Canceled | DeadlineExceeded | ErrRecursionWorkLimit | ErrResolutionAttemptLimit | ErrMaxRecursion) *)
+(* zone=="" || IsBestEffort || EffectiveError != nil || RecursionWorkEnforcementError(ctx) != nil || Is(cause, Canceled | DeadlineExceeded | ErrRecursionWorkLimit | ErrResolutionAttemptLimit | ErrMaxRecursion) *)
 Definition zone_admission_source_expected : list N :=
-  [122;111;110;101;61;61;34;34;124;124;109;105;100;100;108;101;119;97;114;101;46;73;115;66;101;115;116;69;102;102;111;114;116;82;101;99;117;114;115;105;111;110;87;111;114;107;40;99;116;120;41;124;124;99;111;110;116;101;120;116;117;116;105;108;46;69;102;102;101;99;116;105;118;101;69;114;114;111;114;40;99;116;120;41;33;61;110;105;108;124;124;101;114;114;111;114;115;46;73;115;40;99;97;117;115;101;44;99;111;110;116;101;120;116;46;67;97;110;99;101;108;101;100;41;124;124;101;114;114;111;114;115;46;73;115;40;99;97;117;115;101;44;99;111;110;116;101;120;116;46;68;101;97;100;108;105;110;101;69;120;99;101;101;100;101;100;41;124;124;101;114;114;111;114;115;46;73;115;40;99;97;117;115;101;44;109;105;100;100;108;101;119;97;114;101;46;69;114;114;82;101;99;117;114;115;105;111;110;87;111;114;107;76;105;109;105;116;41;124;124;101;114;114;111;114;115;46;73;115;40;99;97;117;115;101;44;109;105;100;100;108;101;119;97;114;101;46;69;114;114;82;101;115;111;108;117;116;105;111;110;65;116;116;101;109;112;116;76;105;109;105;116;41;124;124;101;114;114;111;114;115;46;73;115;40;99;97;117;115;101;44;109;105;100;100;108;101;119;97;114;101;46;69;114;114;77;97;120;82;101;99;117;114;115;105;111;110;41]%N.
+  [122;111;110;101;61;61;34;34;124;124;109;105;100;100;108;101;119;97;114;101;46;73;115;66;101;115;116;69;102;102;111;114;116;82;101;99;117;114;115;105;111;110;87;111;114;107;40;99;116;120;41;124;124;99;111;110;116;101;120;116;117;116;105;108;46;69;102;102;101;99;116;105;118;101;69;114;114;111;114;40;99;116;120;41;33;61;110;105;108;124;124;109;105;100;100;108;101;119;97;114;101;46;82;101;99;117;114;115;105;111;110;87;111;114;107;69;110;102;111;114;99;101;109;101;110;116;69;114;114;111;114;40;99;116;120;41;33;61;110;105;108;124;124;101;114;114;111;114;115;46;73;115;40;99;97;117;115;101;44;99;111;110;116;101;120;116;46;67;97;110;99;101;108;101;100;41;124;124;101;114;114;111;114;115;46;73;115;40;99;97;117;115;101;44;99;111;110;116;101;120;116;46;68;101;97;100;108;105;110;101;69;120;99;101;101;100;101;100;41;124;124;101;114;114;111;114;115;46;73;115;40;99;97;117;115;101;44;109;105;100;100;108;101;119;97;114;101;46;69;114;114;82;101;99;117;114;115;105;111;110;87;111;114;107;76;105;109;105;116;41;124;124;101;114;114;111;114;115;46;73;115;40;99;97;117;115;101;44;109;105;100;100;108;101;119;97;114;101;46;69;114;114;82;101;115;111;108;117;116;105;111;110;65;116;116;101;109;112;116;76;105;109;105;116;41;124;124;101;114;114;111;114;115;46;73;115;40;99;97;117;115;101;44;109;105;100;100;108;101;119;97;114;101;46;69;114;114;77;97;120;82;101;99;117;114;115;105;111;110;41]%N.
 Lemma gen_zone_admission_source : map strip_ws zone_admission_source = [zone_admission_source_expected].
 Proof. vm_compute. reflexivity. Qed.
 
